@@ -1,8 +1,10 @@
 import HypnoModel.Model.Wall
+import HypnoModel.Model.Extend
 import HypnoModel.Drv.C20
 /- driver ops for C11:
    c11n <poly>                               → normalised wall, then closed wall   ("r,z;r,z | r,z;…")
    c11i startInd endInd index p v0 v1 …      (integer points) → "pts… | startInd endInd"
+   c11x startInd endInd lo hi nlow nup low… up… v…   temporaryExtend bookkeeping → "pts… | startInd endInd"
    c11w lw uw li lp ui up radius startInd endInd v0 v1 …   (integer points on a line; near a b = |a-b| < radius)
                                              → "pts… | startInd endInd" | "error"
    c11p <closedwall> <p0> <p1> <p2>          → squared mask value (rational) -/
@@ -21,6 +23,16 @@ def showC (c : Contour Int) : String := " ".intercalate (c.pts.map toString) ++ 
 def opInsert (a : List String) : String :=
   match a.map String.toInt! with
   | si :: ei :: idx :: p :: vs => showC (Contour.insert ⟨vs, si, ei⟩ idx p)
+  | _ => "bad-op"
+
+/-- c11x startInd endInd lo hi nlow nup low… up… v…  (integer points on a line; in range = lo ≤ p ≤ hi) -/
+def opExtend (a : List String) : String :=
+  match a.map String.toInt! with
+  | si :: ei :: lo :: hi :: nl :: nu :: rest =>
+    let lows := rest.take nl.toNat
+    let ups := (rest.drop nl.toNat).take nu.toNat
+    let vs := rest.drop (nl.toNat + nu.toNat)
+    showC (Contour.temporaryExtend (fun p => decide (lo ≤ p ∧ p ≤ hi)) ⟨vs, si, ei⟩ lows ups)
   | _ => "bad-op"
 
 def opWall (a : List String) : String :=
